@@ -47,6 +47,8 @@ THEOREMS = [
     "Opacus.C09.grid_inclusion_probability",
     # the tie to the source: Generated/SamplerArith.lean is re-translated from utils/uniform_sampler.py on every run
     "Opacus.C09.generated_num_samples_eq_model",
+    "Opacus.C09.generated_iter_eq_model",
+    "Opacus.C09.generated_iter_inclusion_law",
     # the tie to the source: Generated/FloatBookkeeping.lean is re-translated from privacy_engine.py, accountants/utils.py, utils/uniform_sampler.py on every run
     "Opacus.C08.generated_bookkeeping_eq_model",
 ]
@@ -58,6 +60,7 @@ RULE = (
     "rate case = (N, batch size), non-trivial iff len(loader) >= 2"
 )
 TRUSTED = [
+    "the translator vharness/props/c09_iter_trans.py (Python `ast` -> the two samplers' __iter__ as functions of the uniforms drawn per batch; subset in its docstring: one draw of num_samples uniforms from the sampler's own generator per batch, mask = draw < sample_rate, nonzero positions, the rank's shard, one unconditional yield; anything else is reported as a broken tie) is trusted to render the two generators faithfully; torch.rand / nonzero / randperm are outside the repository (their behaviour is what the sampler correspondence reproduces from a cloned generator on every run)",
     "torch.rand(N, generator) yields i.i.d. uniform float32 draws on the 2^-24 grid, deterministic in the generator state; torch compares them with sample_rate rounded to float32 "
     "(P(include) = ceil(float32(q)*2^24)/2^24, within 2^-24 of q): the distributional part of the property rests on this contract plus inclusion_pointwise",
     "torch.randperm yields a permutation (shards_partition is proved for every permutation); Python slice semantics [r:N:W] = positions congruent to r mod W",
@@ -358,6 +361,8 @@ def regenerate(ctx):
     from .. import regen
     from . import c09_trans as T
     regen.regenerate(ctx, T, "Opacus.Generated.Sampler", "utils/uniform_sampler.py")
+    from . import c09_iter_trans as TI
+    regen.regenerate(ctx, TI, "Opacus.Generated.SamplerIter", "__iter__ of both Poisson samplers (utils/uniform_sampler.py)")
     from . import c08_trans as T8
     regen.regenerate(ctx, T8, "Opacus.Generated.Float", "float bookkeeping (privacy_engine.py, accountants/utils.py, utils/uniform_sampler.py)")
 
